@@ -108,6 +108,39 @@ def case_st(draw):
     return (stuffing, abort, noise, frames, gaps, closing, extra, draw(G.cuts_st()))
 
 
+def interleaved_oracle(case) -> Info:
+    """Two (or three) readers alive in the same process, each fed its own clean stream, chunks alternating:
+    every reader must still deliver exactly its own frames (no state shared between instances)."""
+    subcases = [tuple(c) for c in case]
+    readers, chunk_lists, sent = [], [], []
+    for stuffing, abort, noise, frames, gaps, closing, extra, cuts in subcases:
+        frames = [bytes(f) for f in frames]
+        stream, _ = compose(stuffing, noise, frames, gaps, closing, frozenset(extra))
+        readers.append(hdlc.HdlcFrameReader(use_octet_stuffing=stuffing, use_abort_sequence=abort))
+        chunk_lists.append(G.split(stream, tuple(cuts)))
+        sent.append(frames)
+    got = [[] for _ in readers]
+    for k in range(max(len(c) for c in chunk_lists)):
+        for i, r in enumerate(readers):
+            if k < len(chunk_lists[i]):
+                got[i].extend(guarded(r.read, chunk_lists[i][k], what="HdlcFrameReader.read"))
+    for i, (g, s_) in enumerate(zip(got, sent)):
+        gb = [fr.as_bytes for fr in g]
+        if gb != s_ or not all(fr.is_valid for fr in g):
+            fail(
+                f"reader #{i} of {len(readers)} interleaved readers (cfg stuffing={subcases[i][0]} abort={subcases[i][1]}): sent {len(s_)} frames, got {len(gb)} "
+                f"({sum(1 for a, b in zip(gb, s_) if a == b)} equal, {sum(1 for fr in g if fr.is_valid)} valid); alone the same stream is delivered completely",
+                sig="interleaved",
+            )
+    multi = all(len(c) > 1 for c in chunk_lists)
+    return Info(nontrivial=multi, classes=(f"readers:{len(readers)}", "all-chunked" if multi else "some-unsplit"))
+
+
+@st.composite
+def interleaved_case_st(draw):
+    return [draw(case_st()) for _ in range(draw(st.sampled_from([2, 2, 3])))]
+
+
 def build() -> Check:
     return Check(
         pid="C02",
@@ -117,12 +150,17 @@ def build() -> Check:
             "addresses 1..4 octets, any control/format type/segmentation, header-only frames) separated by 1..3 flags, optional flag-free "
             "leading noise, x splittings x 4 configurations, the per-configuration domain built by construction (repair, not rejection). "
             "Non-trivial = (>=2 frames and a cut strictly inside a frame) or a 2047-octet frame or a payload containing 7E/7D or an "
-            "address longer than 2 octets. Distinct = distinct case hash."
+            "address longer than 2 octets. interleaved: 2-3 reader instances (any configurations) alive at once, each fed its own clean stream with "
+            "the read() calls alternating - each must deliver exactly its own frames; non-trivial = every stream is split into >1 call. "
+            "Distinct = distinct case hash."
         ),
         assumptions=[
             "Expected fields come from vlib/ref_hdlc.ref_fields applied to the octets the harness built.",
             "Without stuffing the header octets (format .. HCS, whole frame if header-only) contain no 7E; with abort detection no 7D directly before a 7E or the frame end - exactly the domain stated in C02.",
             "With stuffing, 7E and 7D are always stuffed; up to three further octet values may be stuffed too (RFC 1662 allows a sender to escape more).",
         ],
-        clauses=[HypClause("clean", case_st, oracle, quick=12000, thorough=200000)],
+        clauses=[
+            HypClause("clean", case_st, oracle, quick=12000, thorough=200000),
+            HypClause("interleaved", interleaved_case_st, interleaved_oracle, quick=3000, thorough=60000, doc="2-3 reader instances fed alternately, each with its own clean stream"),
+        ],
     )
